@@ -66,6 +66,7 @@ def check(ctx):
     pa = PathAnalysis(ctx.db, ctx.cg)
     check_sanitizer_shape(ctx)
     check_sanitizer_words(ctx)
+    check_exposure_test(ctx)
     check_run_mapping(ctx)
     check_write_log(ctx)
     check_otf(ctx)
@@ -187,6 +188,46 @@ def check_sanitizer_words(ctx):
                'the package' if bad is None else
                f'a word can be replaced by {bad[:80]}, which is neither '
                'a bare file name nor a package-relative path')
+
+
+def check_exposure_test(ctx):
+    """a word is a host path if *any* leading part of it exists: scratch
+    files are gone by the time the log is sanitised, but the directories
+    above them are not.  is_exposed therefore walks all the ancestors
+    (recursion on .parent, or a loop over .parents), and a word for which
+    it answers True is always substituted."""
+    db = ctx.db
+    fi = db.fn('utils.cloud_utils:is_exposed')
+    ctx.touch(fi)
+    rule = 'R-MUST/exposure-walks-ancestors'
+    walks = False
+    for n in ast.walk(fi.node):
+        if isinstance(n, ast.Call) and isinstance(n.func, ast.Name) \
+                and n.func.id == fi.name and n.args:
+            a = n.args[0]
+            if isinstance(a, ast.Attribute) and a.attr == 'parent':
+                walks = True
+        if isinstance(n, (ast.For, ast.comprehension)):
+            it = n.iter
+            if isinstance(it, ast.Attribute) and it.attr == 'parents':
+                walks = True
+    ctx.ob(rule, 'is_exposed:ancestors', fi.loc(), walks,
+           'every ancestor of the word is tested for existence' if walks
+           else 'is_exposed no longer tests every ancestor of the word: a '
+           'path below a directory that still exists (a removed scratch '
+           'file, a file yet to be written) is not recognised, and is '
+           'written to the log / config with its directories')
+    # existence tests: both files and directories count
+    kinds = {c.func.attr for c in ast.walk(fi.node)
+             if isinstance(c, ast.Call) and isinstance(
+                 c.func, ast.Attribute)
+             and c.func.attr in ('is_file', 'is_dir', 'exists')}
+    ok = 'exists' in kinds or {'is_file', 'is_dir'} <= kinds
+    ctx.ob(rule, 'is_exposed:existence', fi.loc(), ok,
+           'existing files and existing directories both expose a path'
+           if ok else
+           f'is_exposed tests only {sorted(kinds)}: a path is not '
+           'recognised when the other kind of entry exists')
 
 
 def check_run_mapping(ctx):
